@@ -11,6 +11,9 @@ import LowProofs.Tie2.Lemmas
 namespace Low.Tie2Sel
 open Low Low.GoSem Low.TieL Low.Tie2L
 
+/-- the two `int32` results, from the model's `Nat`s -/
+def castPair (p : Nat × Nat) : Int × Int := ((p.1 : Int), (p.2 : Int))
+
 /-! ### the byte table -/
 
 /-- `select8Lookup` as a list (the array of the model is this list's `toArray`) -/
